@@ -26,6 +26,12 @@ Binding C (histories of one binner): spec/BinnerHistory.tla + MC_BinnerHistory.t
       the output dictionaries through HDF5Output + h5py: stored binned spectrum / optical depths = TLC's exact overlap-weighted mean of the
       native arrays stored next to them, exposed centres / widths unchanged, every call = a freshly built binner's (harness/fx_binnerhist.py);
       canary on the harness's own mutants of the real FluxBinner.
+Binding C (histories of the output pipeline): spec/OutputPipeline.tla + MC_OutputPipeline.tla (evaluate / build the dictionary / store as
+      actions on an abstract memory; ResultsStable, FileHoldsComputed, FileSelfConsistent; design mutants "the model returns its work array",
+      per instance or per class, and "the dictionary is built by modifying the result" refuted); the program's own sequences and random ones
+      replayed on two long-lived models of each forward-model class, one binner and the real writer (harness/fx_outpipe.py); the files of real
+      runs of the program compared with the model rebuilt from the same file (judge_program_file).
+Model write -> rebuild additionally over the 'falsy' input class of MC_OutputWr (a keyword takes 0 / 0.0 / False / [] where the model accepts it).
 """
 import itertools
 import json
@@ -509,7 +515,33 @@ def sweep_variants(row):
                 kw = {k: row['all'][k] for k in row['required']}
                 kw.update({k: row['all'][k] for k in u})
                 out.append(('single:' + '+'.join(u), kw))
+    # the 'falsy' input class of MC_OutputWr: one keyword at a time gets the value of its type that Python's truth test takes
+    # for false (0, 0.0, False, an empty list), the others keep their distinct values.  Whether that value is inside the
+    # quantifier ("all parameter values" of a model that can be built and gives a spectrum) is decided by the run on the
+    # model BEFORE it is written (run_model_roundtrips, probe) -- never by what write / rebuild make of it.
+    for k in falsy_keys(row):
+        out.append(('falsy:' + k, dict(row['all'], **{k: falsy_of(row['all'][k])})))
     return out
+
+
+def falsy_of(v):
+    if isinstance(v, bool):
+        return False if v else None
+    if isinstance(v, int):
+        return 0
+    if isinstance(v, float):
+        return 0.0
+    if isinstance(v, list):
+        return []
+    return None
+
+
+def falsy_keys(row):
+    """keywords of a sweep row that have a falsy value of their own type (rows of the file-configured components, which
+    cannot be rebuilt at all -- L-C16f / L-C16g -- are left out)"""
+    if not row['singles']:
+        return []
+    return [k for k, v in row['all'].items() if falsy_of(v) is not None]
 
 
 def sweep_cases(table, models=(None,)):
@@ -526,7 +558,8 @@ def sweep_cases(table, models=(None,)):
                 if model is not None:
                     desc['model'] = model
                     vec['in_model'] = list(model)
-                cases.append(dict(tag='sweep|%s|%s%s' % (row['cls'], name, '|in ' + model[0] if model else ''), vec=vec, desc=desc, focus=row['cls']))
+                cases.append(dict(tag='sweep|%s|%s%s' % (row['cls'], name, '|in ' + model[0] if model else ''), vec=vec, desc=desc, focus=row['cls'],
+                                  probe=(row['cls'], name[6:]) if name.startswith('falsy:') else None))
     return cases
 
 
@@ -548,7 +581,7 @@ def sweep_given(table, classes):
             if d is inspect._empty or d is None or not same_value(v, d):
                 given.add(k)
         nums = [float(v) for v in row['all'].values() if isinstance(v, (int, float)) and not isinstance(v, bool)]
-        out[row['cls']] = dict(given=given, distinct=len(set(nums)) == len(nums), exempt=set(row['exempt']))
+        out[row['cls']] = dict(given=given, distinct=len(set(nums)) == len(nums), exempt=set(row['exempt']), zeroable=set(falsy_keys(row)))
     return out
 
 
@@ -612,22 +645,39 @@ def combo_case(combo):
     return dict(tag=tag, vec=dict(combo), desc=combo_desc(combo), focus=None)
 
 
-def run_model_roundtrips(ctx, cases, tmp, classes):
-    """write -> taurex_hdf5_to_model -> build -> model() for each case dict(tag, vec, desc, focus)."""
+def run_model_roundtrips(ctx, cases, tmp, classes, probed=None):
+    """write -> taurex_hdf5_to_model -> build -> model() for each case dict(tag, vec, desc, focus).
+    A case with probe = (class, keyword) hands that keyword an edge value (the 'falsy' input class): it is inside the quantifier
+    iff the model can be built with it and gives a finite spectrum BEFORE anything is written; probed[(class, keyword)] records
+    'legal' or why not."""
     from taurex.output.hdf5 import HDF5Output
     from taurex.util.hdf5 import taurex_hdf5_to_model
     written = {}
+    probed = {} if probed is None else probed
     for n, case in enumerate(cases):
         tag, vec, desc, focus = case['tag'], case['vec'], case['desc'], case['focus']
+        probe = case.get('probe')
         path = os.path.join(tmp, 'model%d.h5' % n)
         del FX._REC[:]
         try:
-            model = build_desc(desc, classes)
-        except KeyError as ex:
-            ctx.verdict('ModelBuilds', False, cls='class:%s' % ex.args[0], detail='component class %s is not discoverable' % ex.args[0], vector=vec)
+            try:
+                model = build_desc(desc, classes)
+            except KeyError as ex:
+                if ex.args and ex.args[0] in [desc[k][0].split('/')[0] for k in ('model', 'temp', 'chem', 'planet', 'star')] + [c[0].split('/')[0] for c in desc['gases'] + desc['contribs']]:
+                    ctx.verdict('ModelBuilds', False, cls='class:%s' % ex.args[0], detail='component class %s is not discoverable' % ex.args[0], vector=vec)
+                    continue
+                raise
+            built = rec_summary(list(FX._REC), classes, component_ids(model))
+            wn, spec = model.model()[:2]
+            if probe and not (np.size(spec) and np.all(np.isfinite(spec))):
+                raise ArithmeticError('the spectrum is not finite')
+        except Exception as ex:
+            if not probe:
+                raise
+            probed.setdefault(probe, 'outside: %s' % type(ex).__name__)
             continue
-        built = rec_summary(list(FX._REC), classes, component_ids(model))
-        wn, spec = model.model()[:2]
+        if probe:
+            probed[probe] = 'legal'
         try:
             with HDF5Output(path) as o:
                 model.write(o)
@@ -670,8 +720,9 @@ def run_model_roundtrips(ctx, cases, tmp, classes):
                     eff = kw.get('planet_sma') if kw.get('planet_sma') is not None else kw.get('planet_distance')
                     eff2 = reloaded[comp].get('planet_sma') if reloaded[comp].get('planet_sma') is not None else reloaded[comp].get('planet_distance')
                     ok = same_value(eff, eff2)
-                elif comp == 'CIAContribution' and k == 'cia_pairs' and v is not None and w is not None:
-                    ok = sorted(map(str, v)) == sorted(map(str, w))
+                elif comp == 'CIAContribution' and k == 'cia_pairs':
+                    # the constructor turns None into the empty list: "no pair" has two spellings
+                    ok = sorted(map(str, [] if v is None else list(v))) == sorted(map(str, [] if w is None else list(w)))
                 else:
                     ok = same_value(v, w)
                 if not ok:
@@ -701,15 +752,20 @@ def gen_output_reg(classes, written, sweep=None):
         if kind == 'model':
             supplied = ['planet', 'star', 'chemistry', 'temperature_profile', 'pressure_profile', 'nlayers', 'atm_min_pressure', 'atm_max_pressure']
         sw = sweep.get(cname, dict(given=set(names), distinct=True, exempt=set()))
-        rows.append('[name |-> %s, params |-> %s, written |-> %s, supplied |-> %s, given |-> %s, exempt |-> %s, distinct |-> %s]' % (
+        rows.append('[name |-> %s, params |-> %s, written |-> %s, supplied |-> %s, given |-> %s, exempt |-> %s, distinct |-> %s,\n'
+                    '   zeroable |-> %s, zeroed |-> %s, nozero |-> %s]' % (
             FX.tla_str(cname), FX.tla_set(FX.tla_str(x) for x in names), FX.tla_set(FX.tla_str(x) for x in sorted(written[cname])),
             FX.tla_set(FX.tla_str(x) for x in supplied), FX.tla_set(FX.tla_str(x) for x in sorted(sw['given'])),
-            FX.tla_set(FX.tla_str(x) for x in sorted(sw['exempt'])), 'TRUE' if sw['distinct'] else 'FALSE'))
+            FX.tla_set(FX.tla_str(x) for x in sorted(sw['exempt'])), 'TRUE' if sw['distinct'] else 'FALSE',
+            FX.tla_set(FX.tla_str(x) for x in sorted(sw.get('zeroable', ()))), FX.tla_set(FX.tla_str(x) for x in sorted(sw.get('zeroed', ()))),
+            FX.tla_set(FX.tla_str(x) for x in sorted(sw.get('nozero', ())))))
     return ('----------------------------- MODULE OutputReg -----------------------------\n'
             '\\* GENERATED by harness/drivers/C16.py: constructor keywords (inspect.signature), the dataset names found in the\n'
             '\\* ModelParameters groups that the components\' write() methods produced, and the component sweep (given = keywords\n'
             '\\* set to a non-default value by the "all" variant, exempt = keywords deliberately left out, distinct = its numeric\n'
-            '\\* values are pairwise distinct).\n'
+            '\\* values are pairwise distinct; zeroable = keywords that have a falsy value of their own type -- 0, 0.0, False, [] --,\n'
+            '\\* zeroed = those for which the model with that value can be built and was written and rebuilt, nozero = those for which\n'
+            '\\* the constructor / the model rejects it).\n'
             'MCComponents == {\n  ' + ',\n  '.join(rows) + '}\n'
             '=============================================================================\n')
 
@@ -892,6 +948,95 @@ def run_binner_histories(ctx, tmp, only=None):
         ctx.add_sample(dict(binner_history=walks[-1]['ops'], exposes=dict(flux=walks[-1]['flux'], simple=walks[-1]['simple'])))
 
 
+# ---------------------------------------------------------------------------- histories of the output pipeline
+PIPE_CLAUSE = dict(held='ResultsStable', dict='ResultsStable', raised='ResultsStable', computed='StoredIsComputed', sized='TauBySize')
+PIPE_MODELS = (('TransmissionModel', {}), ('EmissionModel', dict(ngauss=3)), ('TransmissionModel', dict(new_path_method=True)), ('DirectImageModel', dict(ngauss=3)))
+
+
+def pipeline_models(classes, which, model_class=None):
+    """two long-lived models of one class (different planets: every array of one differs from the other's), three active
+    contributions' worth of components (H2O, CH4 absorption; Rayleigh of every gas)"""
+    name, kw = which
+    cl = dict(classes)
+    if model_class is not None:
+        cl[name] = (classes[name][0], model_class)
+    out = {}
+    for m, radius in ((1, 0.9), (2, 1.15)):
+        out[m] = build_desc(base_desc(model=(name, kw), temp=('Isothermal', dict(T=1234.0)), planet=('Planet', dict(PLANET, planet_radius=radius)),
+                                      press=('SimplePressureProfile', dict(PRESSURE, nlayers=6)),
+                                      gases=[('ConstantGas', dict(molecule_name='H2O', mix_ratio=2e-4)), ('ConstantGas', dict(molecule_name='CH4', mix_ratio=5e-4)),
+                                             ('ConstantGas', dict(molecule_name='N2', mix_ratio=3e-3))],
+                                      contribs=[('AbsorptionContribution', {}), ('RayleighContribution', {})]), cl)
+    return out
+
+
+def run_output_pipeline(ctx, tmp, classes, only=None):
+    """spec/OutputPipeline.tla: TLC's operation sequences (the program's own: evaluate > build the dictionary > evaluate every
+    contribution and component > store, two solutions evaluated before either is stored; and random ones) replayed on two long-lived
+    models of one class, one long-lived binner and the real writer.  Every array handed out is compared with a private copy after
+    every later operation; every stored dictionary is read back with h5py: it holds what THAT evaluation returned, the binned
+    arrays are a fresh binner applied to them and to the native arrays stored next to them."""
+    from taurex.binning import FluxBinner, SimpleBinner, NativeBinner
+    from .. import fx_outpipe as OP
+    q = ctx.tier == 'quick'
+    if only is None:
+        from concurrent.futures import ThreadPoolExecutor
+        with ThreadPoolExecutor(2) as ex:          # two independent TLC runs
+            design = ex.submit(OP.check_design, ctx, not q)
+            gen = ex.submit(OP.generate, ctx, 60 if q else 900, not q)
+            design.result()
+            walks = gen.result()
+    else:
+        walks = [dict(ops=v['ops'], src='replay', kills={}, model=v['model'], binner=v['binner']) for v in only]
+    path = os.path.join(tmp, 'pipe.h5')
+    binners = dict(flux=lambda k=FluxBinner: k(np.array(OP.BINS[::-1]), np.full(len(OP.BINS), 60.0)),       # handed over descending: the constructor sorts
+                   simple=lambda k=SimpleBinner: k(np.array(OP.BINS)), native=lambda k=NativeBinner: k())
+    models, rigs = {}, {}
+
+    def rig_for(i, w):
+        mi = [n for n, pm in enumerate(PIPE_MODELS) if '%s%s' % (pm[0], '/newpath' if pm[1].get('new_path_method') else '') == w['model']][0] if 'model' in w else i % len(PIPE_MODELS)
+        bname = w.get('binner') or ('flux', 'simple', 'native', 'flux', 'flux')[i % 5]
+        if (mi, bname) not in rigs:
+            if mi not in models:
+                models[mi] = pipeline_models(classes, PIPE_MODELS[mi])
+            pm = PIPE_MODELS[mi]
+            rigs[(mi, bname)] = OP.Rig(models[mi], binners[bname], '%s%s' % (pm[0], '/newpath' if pm[1].get('new_path_method') else ''), bname)
+        return rigs[(mi, bname)]
+    nstores = 0
+    for i, w in enumerate(walks):
+        rig = rig_for(i, w)
+        for w_, problems in OP.replay(rig, [w], path):
+            ops = w['ops']
+            vec = dict(output_pipeline=True, model=rig.name, binner=rig.bname, ops=ops)
+            stores = [o for o in ops if o['k'] == 'store']
+            nstores += len(stores)
+            clauses = {'ResultsStable'} | ({'StoredIsComputed'} if stores else set())
+            if stores and rig.bname != 'native':
+                clauses.add('BinnedSpectrum')
+            by = {}
+            for j, tag, sfx, detail in problems:
+                c = PIPE_CLAUSE.get(tag) or ('BinnedTau' if 'tau' in sfx else 'BinnedSpectrum')
+                by.setdefault(c, (j, tag, sfx, detail))
+            for c in sorted(clauses | set(by)):
+                if c in by:
+                    j, tag, sfx, detail = by[c]
+                    ctx.verdict(c, False, cls='pipeline:%s:%s:%s' % (rig.name, rig.bname if tag in ('computed', 'selfdesc', 'sized') else tag, sfx), vector=vec,
+                                detail='two %s objects, one %s binner, %s: step %d -- %s' % (rig.name, rig.bname, OP.trail(ops), j + 1, detail))
+                else:
+                    ctx.verdict(c, True, cls='pipeline:' + rig.name, vector=vec)
+    if only is None:
+        def make_rig(mk, bk):
+            return OP.Rig(pipeline_models(classes, PIPE_MODELS[0], model_class=mk), lambda: binners['flux'](bk), 'TransmissionModel', 'flux')
+        # the doubles inherit the code under test: once the real pipeline fails the canary concludes nothing
+        ncan = OP.canary(make_rig, walks, path, limit=24 if q else 120) if not ctx.has_violations() else 0
+        ctx.traces += len(walks)
+        ctx.note('output pipeline: %d operation sequences (%d of the program / the optimizer + random ones) replayed on two long-lived models each of '
+                 '%d forward-model set-ups with a long-lived Flux / Simple / Native binner, %d dictionaries through HDF5; canary: %d sequences on the '
+                 'harness\'s own work-array / in-place mutants of TransmissionModel and FluxBinner' % (
+                     len(walks), sum(1 for w in walks if w['src'] == 'program'), len(PIPE_MODELS), nstores, ncan))
+        ctx.add_sample(dict(output_pipeline=walks[0]['ops'], exposes=walks[0]['kills']))
+
+
 # ---------------------------------------------------------------------------- output size at every place it is consumed
 def tau_events_of_block(block, caller, binner, size, where, with_spectra):
     """block: a nested dict / h5py group holding a spectrum dictionary ('Spectra' level) or a contributions block."""
@@ -993,6 +1138,88 @@ def run_program(par_text, flags, tmp):
     return out, (cites[-1] if cites else (None, None))
 
 
+def judge_program_file(ctx, out, binning, bname, sname, retr):
+    """The file of one run of the program, read back with h5py: "output files hold what was computed".  The program evaluates the
+    forward model, builds the spectrum dictionary, evaluates every contribution and every component on the SAME model object and
+    only then writes.  Forward runs: every stored native array equals what the model REBUILT from the ModelParameters of the same
+    file computes (model / model_contrib / model_full_contrib), every binned array a freshly built binner (on the stored bins)
+    applied to it.  Every run (also each solution of a retrieval): binned arrays = that binner applied to the native arrays stored
+    next to them."""
+    import h5py
+    from taurex.binning import FluxBinner, SimpleBinner
+    from taurex.util.hdf5 import taurex_hdf5_to_model
+
+    def tree(g):
+        return {k: (tree(g[k]) if isinstance(g[k], h5py.Group) else g[k][...]) for k in g}
+
+    def close(a, b):
+        a, b = np.asarray(a, dtype=float), np.asarray(b, dtype=float)
+        return a.shape == b.shape and np.allclose(a, b, rtol=1e-12, atol=0, equal_nan=True)
+    with h5py.File(out, 'r') as f:
+        o = f['Output']
+        if retr:
+            blocks = [('Output/Solutions/%s/Spectra' % k, tree(o['Solutions'][k]['Spectra'])) for k in o.get('Solutions', {}) if k.startswith('solution') and 'Spectra' in o['Solutions'][k]]
+            if 'Priors' in o and 'Spectra' in o['Priors']:
+                blocks.append(('Output/Priors/Spectra', tree(o['Priors']['Spectra'])))
+        else:
+            blocks = [('Output/Spectra', tree(o['Spectra']))] if 'Spectra' in o else []
+    tagc = 'program:%s:%s' % (binning, sname)
+    vec = dict(program_file=True, binning=binning, size=sname)
+    ref = None
+    if not retr:
+        try:
+            model = taurex_hdf5_to_model(out)
+            model.build()
+            # every array is copied before the rebuilt model is evaluated again
+            cp = lambda x: np.array(x, copy=True)
+            res = model.model()
+            ref = dict(grid=cp(res[0]), all=(cp(res[1]), cp(res[2])))
+            ref['contrib'] = {k: (cp(v[0]), cp(v[1])) for k, v in model.model_contrib()[1].items()}
+            ref['full'] = {k: {x[0]: (cp(x[1]), cp(x[2])) for x in v} for k, v in model.model_full_contrib()[1].items()}
+            ctx.verdict('ModelReloads', True, cls='reload', vector=vec)
+        except Exception as ex:
+            ctx.verdict('ModelReloads', False, cls='reload:program:%s' % binning, detail='the model of the program\'s output file cannot be rebuilt: %s: %s' % (type(ex).__name__, str(ex)[:160]), vector=vec)
+    for where, sp in blocks:
+        if 'native_wngrid' not in sp or 'native_spectrum' not in sp:
+            continue                # the key set is judged by SpectrumKeys / TauBySize
+        binner = None
+        if 'binned_wngrid' in sp and 'binned_wnwidth' in sp:
+            binner = (FluxBinner if bname == 'flux' else SimpleBinner)(np.array(sp['binned_wngrid']), np.array(sp['binned_wnwidth']))
+        grid = sp['native_wngrid']
+
+        def block(b, name, want):
+            """b: datasets of one group; want: (flux, tau) of the rebuilt model or None"""
+            for nat, bnd, i in (('native_spectrum', 'binned_spectrum', 0), ('native_tau', 'binned_tau', 1)):
+                clause = 'BinnedTau' if i else 'BinnedSpectrum'
+                if binner is not None and nat in b and bnd in b and not isinstance(b[nat], dict):
+                    again = binner.bindown(np.array(grid), np.array(b[nat]))[1]
+                    ctx.verdict(clause, close(b[bnd], again), cls='%s:%s' % (tagc, name), vector=vec,
+                                detail='%s/%s: %s is not the binner applied to the %s stored next to it (max abs difference %.3g)' % (
+                                    where, name, bnd, nat, float(np.nanmax(np.abs(np.asarray(b[bnd]) - again))) if np.shape(b[bnd]) == np.shape(again) else -1))
+                if want is None:
+                    continue
+                if nat in b:
+                    ctx.verdict('StoredIsComputed', close(b[nat], want[i]), cls='%s:%s:%s' % (tagc, name, nat), vector=vec,
+                                detail='%s/%s: the stored %s is not what the model rebuilt from the same file computes (max abs difference %.3g)' % (
+                                    where, name, nat, float(np.nanmax(np.abs(np.asarray(b[nat]) - want[i]))) if np.shape(b[nat]) == np.shape(want[i]) else -1))
+                if bnd in b and binner is not None:
+                    again = binner.bindown(np.array(ref['grid']), np.array(want[i]))[1]
+                    ctx.verdict('StoredIsComputed', close(b[bnd], again), cls='%s:%s:%s' % (tagc, name, bnd), vector=vec,
+                                detail='%s/%s: the stored %s is not the binner applied to what the model rebuilt from the same file computes (max abs difference %.3g)' % (
+                                    where, name, bnd, float(np.nanmax(np.abs(np.asarray(b[bnd]) - again))) if np.shape(b[bnd]) == np.shape(again) else -1))
+        if ref is not None:
+            ctx.verdict('StoredIsComputed', np.array_equal(grid, ref['grid']), cls='%s:Spectra:native_wngrid' % tagc, vector=vec,
+                        detail='%s: native_wngrid is not the native grid of the rebuilt model' % where)
+        block(sp, 'Spectra', ref and ref['all'])
+        for c, cb in (sp.get('Contributions') or {}).items():
+            if not isinstance(cb, dict):
+                continue
+            block(cb, 'Contribution', ref and ref['contrib'].get(c))
+            for comp, pb in cb.items():
+                if isinstance(pb, dict):
+                    block(pb, 'Component', ref and ref['full'].get(c, {}).get(comp))
+
+
 def run_size_callers(ctx, tmp, classes, rng, tau_rows):
     """Events for TLC (Trace_Output, ev = "tau" / "dict"): the optical-depth datasets present in every group written
     through each caller x binner x requested size; the Bibliography block of every program run."""
@@ -1081,6 +1308,7 @@ def run_size_callers(ctx, tmp, classes, rng, tau_rows):
                         ev.append(dict(ev='tau', caller=caller, place='Contribution', binner=bname, size=sname, tau=['<no Contributions block: %d>' % n],
                                        group='%s[%s]/Contributions' % (where, binning)))
                     events += ev
+                judge_program_file(ctx, out, binning, bname, sname, retr)
                 if bib_tex is not None and (binning in ('native', 'retrieval') or not q):
                     items = dict(bibtex=dict(k='str', v=tok(bib_tex)), short_form=dict(k='str', v=tok(short)))
                     tree = read_tree(f['Bibliography']) if 'Bibliography' in f else dict(n='error', why='no Bibliography group')
@@ -1211,6 +1439,10 @@ def run(ctx):
                       'grid_width and error, bin_model, generate_spectrum_output x 3 sizes on %d native grids: same grid, same length and ends with another '
                       'spacing, same length elsewhere, other length) and %d random sequences of %d operations; 4 target bins (overlapping, gapped, unsorted)'
                       % ((32, 4, 120, 6) if q else (40, 5, 1200, 9)))
+    ctx.bounds['output_pipeline'] = ('%d TLC-generated sequences of <= %d operations (evaluate model / every contribution / every component on the native or a '
+                                     'clipped grid with one of two parameter values on one of two model objects; build a dictionary in one of 3 sizes; store) + the 16 '
+                                     'sequences of the program and the optimizer, on Transmission (both path methods), Emission and DirectImage models' % ((60, 7) if q else (900, 10)))
+    ctx.bounds['falsy_class'] = 'every numeric / boolean / list keyword of every swept component at 0 / 0.0 / False / [] where the model builds and gives a finite spectrum'
     ctx.assumptions = ['h5py reads back what HDF5Output wrote (Load = the h5py view)',
                        'names are ASCII <= 64 characters without "/" and no key is another key followed by digits',
                        'strings hold no NUL character; an entry of a string list / tuple is at most 64 bytes of UTF-8 (S64 by design)',
@@ -1218,6 +1450,9 @@ def run(ctx):
                        'constructor arguments are observed by signature-preserving wrappers installed from outside the repository',
                        'binner histories: native grids ascend, their cells (passed widths, or mid-point widths centred on the points) ascend in both edges and '
                        'reach every target bin (AlphabetOk, checked by TLC); lattice coordinates times a dyadic unit are exact floats',
+                       'output pipeline: "what was computed" is what the arrays hold when the evaluation returns them (private copies taken at once); the '
+                       'two results held of model_contrib / model_full_contrib (first and last) are different quantities in the fixture, so shared memory is an error',
+                       'a falsy keyword value is inside the quantifier iff the model built with it gives a finite spectrum before anything is written',
                        'TLC + CommunityModules Json/IOUtils']
     tmp = tempfile.mkdtemp(prefix='c16_')
     sd = None
@@ -1242,6 +1477,8 @@ def run(ctx):
         ctx.expect_refuted('size-by-identity', 'MC_Output', 'MC_Output_sizeident.cfg', 'SizeArith')
         ctx.check_spec('writer-lemma', 'MC_OutputWr', 'MC_OutputWr_sufficient.cfg')
         ctx.expect_refuted('writer-lemma-any-values', 'MC_OutputWr', 'MC_OutputWr_any.cfg', 'Exposes')
+        # a sweep without the 'falsy' input class cannot see a write() that tests `if value:` (TLC's counterexample: identity map, guard "truthy")
+        ctx.expect_refuted('writer-lemma-no-falsy-class', 'MC_OutputWr', 'MC_OutputWr_nofalsy.cfg', 'SweepExposes')
         lap('design')
         # 2. binding A: exported dictionaries through HDF5Output / h5py
         n = 0
@@ -1262,6 +1499,8 @@ def run(ctx):
         lap('spectrum outputs')
         run_binner_histories(ctx, tmp)
         lap('binner histories')
+        run_output_pipeline(ctx, tmp, classes)
+        lap('output pipeline')
         tau_events, prog_bib = run_size_callers(ctx, tmp, classes, rng, tau_rows)
         lap('size callers')
         opacities()
@@ -1325,12 +1564,23 @@ def run(ctx):
         if missing:
             raise Machinery('built-in component classes without a sweep entry: %s' % missing)
         cases = [combo_case(c) for c in chosen] + sweep_cases(table, (None,) if q else (None, ('EmissionModel', dict(ngauss=3)), ('DirectImageModel', dict(ngauss=5))))
-        written = run_model_roundtrips(ctx, cases, tmp, classes)
-        ctx.note('%d models written and rebuilt (%d combinations, %d sweep variants of %d component classes)' % (
-            len(cases), len(chosen), len(cases) - len(chosen), len(table)))
+        probed = {}
+        written = run_model_roundtrips(ctx, cases, tmp, classes, probed)
+        legal = sorted(k for k, v in probed.items() if v == 'legal')
+        ctx.note('%d models written and rebuilt (%d combinations, %d sweep variants of %d component classes; falsy input class: %d keywords '
+                 'take 0 / 0.0 / False / [] in a model that builds -- written and rebuilt --, %d reject it)' % (
+                     len(cases) - (len(probed) - len(legal)), len(chosen), len(cases) - len(chosen) - (len(probed) - len(legal)), len(table),
+                     len(legal), len(probed) - len(legal)))
+        kinds_hit = {classes[c][0] for c, k in legal if c in classes}
+        if len(legal) < 20 or not {'temperature', 'gas', 'planet', 'star', 'contribution', 'chemistry'} <= kinds_hit:
+            raise Machinery('the falsy input class is vacuous: only %d keywords accept a falsy value (kinds %s): %s' % (len(legal), sorted(kinds_hit), probed))
         lap('model roundtrips')
         # 6. ModelFile / Rebuild: constructor keywords that no write() stores; the sweep covers every keyword
-        reg_text = gen_output_reg(classes, written, sweep_given(table, classes))
+        given = sweep_given(table, classes)
+        for (c, k), v in probed.items():
+            if c in given:
+                given[c].setdefault('zeroed' if v == 'legal' else 'nozero', set()).add(k)
+        reg_text = gen_output_reg(classes, written, given)
         if os.environ.get('C16_SNAPSHOT'):          # refresh the committed snapshot spec/OutputReg.tla (documentation only)
             with open(os.path.join(SPEC, 'OutputReg.tla'), 'w') as f:
                 f.write(reg_text)
@@ -1340,7 +1590,8 @@ def run(ctx):
         rows = rb.tagged('REB')
         if not rows:
             raise Machinery('no REB table')
-        unswept = {row['name']: sorted(row['unswept']) for row in rows[0] if row['unswept'] or not row['distinct']}
+        unswept = {row['name']: sorted(row['unswept']) + ['falsy:' + k for k in sorted(row['unzeroed'])] for row in rows[0]
+                   if row['unswept'] or row['unzeroed'] or not row['distinct']}
         if unswept:
             raise Machinery('SweepComplete fails: the component sweep leaves constructor keywords at their default (or uses equal values): %s' % unswept)
         for row in sorted(rows[0], key=lambda x: x['name']):
@@ -1380,7 +1631,7 @@ def replay(ctx, violations):
         done = set()
         table = sweep_table(sweep_files(tmp))
         tables = run_tlc('MC_Output', 'MC_Output_numpy2.cfg', workers=1, allow_violation=True)
-        hist = []
+        hist, pipe = [], []
         for viol in violations:
             v = viol['vector'] or {}
             if 'dict' in v and 'tree' in v:
@@ -1396,7 +1647,11 @@ def replay(ctx, violations):
                 run_model_roundtrips(ctx, [c for c in sweep_cases(table, (tuple(v['in_model']) if v.get('in_model') else None,)) if c['vec'].get('variant') == v['variant'] and c['vec']['sweep'] == v['sweep']], tmp, classes)
             elif v.get('binner_history'):
                 hist.append(v)
-            elif v.get('tau') and 'tau' not in done:
+            elif v.get('output_pipeline'):
+                pipe.append(v)
+            elif (v.get('tau') or v.get('program_file')) and 'tau' in done:
+                continue
+            elif v.get('tau') or v.get('program_file'):
                 done.add('tau')
                 ev, bib = run_size_callers(ctx, tmp, classes, rng, tables.tagged('TAU')[0])
                 opacities()
@@ -1409,6 +1664,9 @@ def replay(ctx, violations):
                 run_spectrum_outputs(ctx, tables.tagged('KEYS')[0], tmp, classes)
         if hist:
             run_binner_histories(ctx, tmp, only=hist)
+        if pipe:
+            opacities()
+            run_output_pipeline(ctx, tmp, classes, only=pipe)
     finally:
         shutil.rmtree(tmp, ignore_errors=True)
         try:
